@@ -309,6 +309,8 @@ type c16Scenario struct {
 	Intr        []c16Intr `json:"intr"`
 	Adm         []c16Adm  `json:"adm"`
 	WatchBreakUs []int64  `json:"watch_break_us"` // instants (since start) at which the delete watch breaks
+	GapDelete   string    `json:"gap_delete"`  // x | by0 | by1: admin DELETE of that id's session in the middle of a watch re-establishment (between the two storage calls of Broker.reconnectWatcher)
+	StoreQuiet  bool      `json:"store_quiet"` // every reconnect waits until the storage has caught up (no operation in flight or started for 21 polls)
 	Conns       []c16Conn `json:"conns"`
 	By          []c16By   `json:"by"`
 	Pubs        []c16Pub  `json:"pubs"`
@@ -403,7 +405,28 @@ func c16Gen(rng *sim.Rand, tier string) interface{} {
 		}
 		return out
 	}
-	if rng.Bool(0.1) {
+	if rng.Bool(0.07) {
+		// recipe: slow storage, the connection ends right behind its last
+		// acknowledged (un)subscribe - its snapshot is still on its way to the
+		// storage - and the client reconnects only when the storage has caught up
+		sc.Store = c16StoreF{Async: true, PutDelayUs: []int64{int64(rng.Pick(100000, 1500000, 1500000))}, GetDelayUs: []int64{int64(rng.Pick(0, 50))}, DelDelayUs: []int64{0}, WatchDelayUs: []int64{0}}
+		sc.StoreQuiet = true
+		c0 := c16Conn{Clean: false, KeepAlive: uint16(rng.Pick(0, 0, 5)), End: rng.PickStr("disconnect", "close", "reset"), EndUs: int64(rng.Pick(0, 103, 2011, 103000))}
+		c0.Steps = steps(rng.Pick(1, 1, 2, 3))
+		for i := range c0.Steps {
+			c0.Steps[i].GapUs = int64(rng.Pick(0, 0, 101, 50700))
+			c0.Steps[i].NoWait = false
+		}
+		sc.Conns = append(sc.Conns, c0)
+		if rng.Bool(0.3) {
+			c := c16Conn{Clean: false, GapUs: int64(rng.Pick(53, 1003, 307000)), End: rng.PickStr("disconnect", "close", "reset"), EndUs: int64(rng.Pick(0, 103, 2011)), Steps: steps(rng.Pick(1, 1, 2))}
+			for i := range c.Steps {
+				c.Steps[i].NoWait = false
+			}
+			sc.Conns = append(sc.Conns, c)
+		}
+		sc.Conns = append(sc.Conns, c16Conn{Clean: false, GapUs: int64(rng.Pick(53, 1003, 307000)), End: "stay", Steps: steps(rng.Pick(0, 0, 1))})
+	} else if rng.Bool(0.1) {
 		// recipe: plain reconnect from the stored session (no takeover): connect,
 		// (un)subscribe back-to-back, orderly end, later clean=0 reconnect
 		sc.Store = c16StoreF{}
@@ -462,6 +485,9 @@ func c16Gen(rng *sim.Rand, tier string) interface{} {
 	for i := rng.Pick(0, 1, 1, 2); i > 0; i-- {
 		sc.By = append(sc.By, c16By{Filters: c16PickFilters(rng), QoS: qos(), Clean: rng.Bool(0.5)})
 	}
+	if sc.Store.Async && !sc.StoreQuiet && rng.Bool(0.3) {
+		sc.StoreQuiet = true
+	}
 	c16GenExtras(rng, sc)
 	return sc
 }
@@ -519,9 +545,12 @@ func c16GenExtras(rng *sim.Rand, sc *c16Scenario) {
 		sc.Burst = rng.Pick(55, 70, 100)
 		sc.BurstPad = rng.Pick(0, 0, 700, 1500)
 	}
-	if c16GenWatchBreak && rng.Bool(0.2) {
+	if c16GenWatchBreak && rng.Bool(0.25) {
 		for i := rng.Pick(1, 1, 2); i > 0; i-- {
 			sc.WatchBreakUs = append(sc.WatchBreakUs, int64(gaps[rng.Intn(len(gaps))]+2*rng.Intn(500)))
+		}
+		if rng.Bool(0.5) {
+			sc.GapDelete = rng.PickStr("x", "x", "by0", "by1")
 		}
 	}
 }
@@ -636,6 +665,10 @@ type c16Store struct {
 	nPrefix     int
 	breaks      int
 	onPrefix    func(has func(id string) bool)
+	inflight    int    // get/put/delete calls in progress
+	ops         int    // get/put/delete calls started
+	phase       int    // 1: the watch broke, none of the two calls of the re-establishment yet; 2: one of them done
+	midHook     func() // runs between the two storage calls of a watch re-establishment
 	// deleter tells (at the moment delete is called) whether the connection that
 	// deletes the contested key still owns the id: "owner" or "superseded"
 	deleter func() string
@@ -671,6 +704,9 @@ func c16In(xs []int, n int) bool {
 }
 
 func (s *c16Store) get(key string) (*string, error) {
+	s.ops++
+	s.inflight++
+	defer func() { s.inflight-- }()
 	s.nGet++
 	n := s.nGet
 	s.lat(s.f.GetDelayUs, n, "store.get")
@@ -704,10 +740,29 @@ func (s *c16Store) getPrefix(prefix string, keysOnly bool) (map[string]string, e
 			out[k] = v
 		}
 	}
+	s.reestStep()
 	return out, nil
 }
 
+// reestStep: Broker.reconnectWatcher makes two storage calls (new watch,
+// listing of the keys). What the harness wants to happen between the two,
+// whatever their order, runs here at the end of the first one.
+func (s *c16Store) reestStep() {
+	switch s.phase {
+	case 1:
+		s.phase = 2
+		if s.midHook != nil && !s.quiet {
+			s.midHook()
+		}
+	case 2:
+		s.phase = 0
+	}
+}
+
 func (s *c16Store) put(key, value string) error {
+	s.ops++
+	s.inflight++
+	defer func() { s.inflight-- }()
 	s.nPut++
 	n := s.nPut
 	s.lat(s.f.PutDelayUs, n, "store.put")
@@ -735,6 +790,9 @@ func (s *c16Store) delete(key string) error {
 	if s.deleter != nil && !s.admin && !s.quiet && key == sessionStoreKey(c16ID) {
 		deleter = s.deleter()
 	}
+	s.ops++
+	s.inflight++
+	defer func() { s.inflight-- }()
 	s.nDel++
 	n := s.nDel
 	s.lat(s.f.DelDelayUs, n, "store.delete")
@@ -792,6 +850,9 @@ func (s *c16Store) watchDelete(prefix string) (<-chan map[string]*string, func()
 		}
 	}
 	s.watched = true
+	if s.nWatchCalls > 1 {
+		s.reestStep()
+	}
 	return s.ch, func() {}, nil
 }
 
@@ -805,6 +866,7 @@ func (s *c16Store) breakWatch() bool {
 	}
 	s.watched = false
 	s.breaks++
+	s.phase = 1
 	s.r.Fault("store.watch_break")
 	select {
 	case s.ch <- nil:
@@ -907,6 +969,10 @@ type c16H struct {
 	takeovers, restores int
 	clOf      map[int]*Client // connection id -> broker-side Client, as seen in b.clients at quiescent points
 	intr      map[int]string // connection id -> name of a refused connection attempt
+	gapVictim   *Client // the client registered for the id whose session was deleted in the middle of a watch re-establishment
+	gapID       string
+	gapName     string
+	quietFailed bool // a wait for the storage to catch up timed out
 	watchKill bool           // the contested id's session key was missing when the delete watch was re-established: its connection may be closed
 }
 
@@ -959,7 +1025,10 @@ func (h *c16H) describe() string {
 		fmt.Fprintf(&sb, " admin-delete%v@%dus", a.IDs, a.GapUs)
 	}
 	if c16GenWatchBreak && len(h.sc.WatchBreakUs) > 0 {
-		fmt.Fprintf(&sb, " watch-breaks@%vus", h.sc.WatchBreakUs)
+		fmt.Fprintf(&sb, " watch-breaks@%vus gap-delete=%q", h.sc.WatchBreakUs, h.sc.GapDelete)
+	}
+	if h.sc.StoreQuiet {
+		sb.WriteString(" reconnects-wait-for-storage")
 	}
 	return sb.String()
 }
@@ -1532,6 +1601,12 @@ func (h *c16H) driver() {
 			return
 		}
 		c := h.newCli(fmt.Sprintf("x%d", k), c16ID, k, spec)
+		if h.sc.StoreQuiet && k > 0 {
+			h.waitStoreQuiet(c)
+			if h.stop() {
+				return
+			}
+		}
 		h.clis = append(h.clis, c)
 		prev := h.cur
 		if prev != nil {
@@ -1964,6 +2039,111 @@ func (h *c16H) adminOthers(j int, a c16Adm) {
 	h.b.httpDeleteSessionHandler(rec, hr)
 }
 
+// gapDelete runs on the goroutine of Broker.reconnectWatcher between its two
+// storage calls: an admin DELETE of the session of a connected client. Whatever
+// the order of the two calls, the deletion is either in the listing or reported
+// by the new watch, so "deleting a session through the admin endpoint
+// disconnects that client" has to hold (checked in final).
+func (h *c16H) gapDelete() {
+	if h.gapVictim != nil || h.closing || h.admin {
+		return
+	}
+	id, name := c16ID, "the contested id"
+	var by *c16Cli
+	switch h.sc.GapDelete {
+	case "x":
+	case "by0", "by1":
+		k := int(h.sc.GapDelete[2] - '0')
+		if k >= len(h.bys) {
+			return
+		}
+		by = h.bys[k]
+		id, name = by.id, by.name
+	default:
+		return
+	}
+	cl := h.b.clients[id]
+	_, existed := h.st.data[sessionStoreKey(id)]
+	if cl == nil || cl.statusFlag == Disconnected || !existed {
+		return
+	}
+	errs := h.st.delErrs
+	body, _ := json.Marshal(HTTPSessions{Sessions: []*HTTPSession{{SessionID: id}}})
+	req := httptest.NewRequest(http.MethodDelete, "/mqttproxy/c16/sessions", bytes.NewReader(body))
+	rec := httptest.NewRecorder()
+	h.logf("admin: DELETE session %q in the middle of the watch re-establishment (registered: conn %d)", id, c16ConnID(cl))
+	if by != nil {
+		by.mayClose = true
+		by.bcast()
+	} else {
+		// the contested id is not judged by the survivor's checks any more
+		h.watchKill = true
+		if c := h.byConn[c16ConnID(cl)]; c != nil {
+			c.mayClose = true
+			c.bcast()
+		}
+	}
+	old := h.st.admin
+	h.st.admin = true
+	h.b.httpDeleteSessionHandler(rec, req)
+	h.st.admin = old
+	if h.st.delErrs > errs {
+		return
+	}
+	h.gapVictim, h.gapID, h.gapName = cl, id, name
+	h.r.Probe("c16.admin_delete_inside_watch_reestablishment")
+}
+
+// checkGapVictim: the client whose session was deleted during the watch
+// re-establishment must be disconnected (closed by the broker or unregistered)
+// once the watch is back; the wait is progress-free, so it polls up to the
+// usual time-out.
+func (h *c16H) checkGapVictim() {
+	cl := h.gapVictim
+	if cl == nil || h.stuck {
+		return
+	}
+	gone := func() bool { return cl.statusFlag == Disconnected || h.b.clients[h.gapID] != cl }
+	deadline := time.Now().Add(c16Timeout)
+	for step := 53 * time.Millisecond; !gone() && time.Now().Before(deadline) && !h.stop(); {
+		h.r.Sleep(step)
+		if step < time.Minute {
+			step *= 2
+		}
+	}
+	if h.stop() {
+		return
+	}
+	if !gone() {
+		h.r.Violate("C16.admin-delete.lost-during-watch-reconnect", "the session of %s (id %q) was deleted through the admin handler while the broker re-established its delete watch (between its listing of the stored sessions and the new watch); %v later the client is still registered and not disconnected (watch breaks %d, watch calls %d, listings %d)\n%s",
+			h.gapName, h.gapID, c16Timeout, h.st.breaks, h.st.nWatchCalls, h.st.nPrefix, h.history())
+		return
+	}
+	h.r.Probe("c16.admin_delete_inside_watch_reestablishment_disconnected")
+}
+
+// waitStoreQuiet lets the storage catch up: no get/put/delete in flight and
+// none started during 21 consecutive polls of one second (the scheduler stalls
+// at most 20 times per run, so in at least one of the intervals every runnable
+// goroutine - snapshot senders, doStore - ran until it blocked).
+func (h *c16H) waitStoreQuiet(c *c16Cli) bool {
+	quiet, last := 0, h.st.ops
+	for i := 0; i < 400 && !h.stop(); i++ {
+		h.r.Sleep(time.Second + c.tick)
+		if h.st.inflight == 0 && h.st.ops == last {
+			quiet++
+			if quiet >= 21 {
+				h.r.Probe("c16.reconnect_after_storage_caught_up")
+				return true
+			}
+		} else {
+			quiet, last = 0, h.st.ops
+		}
+	}
+	h.quietFailed = true
+	return false
+}
+
 // onPrefix runs inside c16Store.getPrefix, i.e. when Broker.reconnectWatcher
 // looks for sessions deleted while the watch was broken: an id whose key is
 // missing at that moment (deleted, or not stored yet: the store is
@@ -2330,6 +2510,7 @@ func (h *c16H) final() {
 			}
 		}
 	}
+	h.checkGapVictim()
 	if S != nil && h.watchKill {
 		// its session key was missing when the broker re-established the delete
 		// watch: the broker may have disconnected it for that (see onPrefix)
@@ -2441,9 +2622,20 @@ func (h *c16H) final() {
 		sort.Strings(out)
 		return out
 	}
+	// quietOK: the survivor's session was restored from the storage, every
+	// reconnect of the run waited for the storage to catch up, no injected
+	// storage error, the broker never deleted the id's key
+	quietOK := func() bool {
+		return h.sc.StoreQuiet && !h.quietFailed && S.fromDB && !h.st.lossy && !h.brokerDeleted() && h.st.breaks == 0
+	}
 	lostClass := func(f string, blackbox bool) string {
 		inh := m.inherited[f]
 		switch {
+		case !sessHas(f) && inh && quietOK():
+			// not the known store lag (SUBACK before persistence): every reconnect
+			// of this run waited until the storage had caught up, the snapshot with
+			// the acknowledged subscription never arrived there
+			return "C16.reconnect.subscription-never-persisted"
 		case !sessHas(f) && inh && h.sc.Store.Async:
 			return "C16.reconnect.subscription-not-restored.store-lag"
 		case !sessHas(f) && inh && h.unregisteredDeleted():
@@ -2548,7 +2740,9 @@ func (h *c16H) final() {
 			cls := "C16.discarded-session-still-delivers"
 			if inSession {
 				cls = "C16.reconnect.stale-session-restored" + lag()
-				if !h.sc.Store.Async && !h.st.lossy {
+				if quietOK() {
+					cls = "C16.reconnect.unsubscribe-never-persisted"
+				} else if !h.sc.Store.Async && !h.st.lossy {
 					for _, f := range stale {
 						switch h.storedHistory(f, false) {
 						case "stale":
@@ -2902,6 +3096,9 @@ func c16Exec(r *sim.Run, sci interface{}) {
 	h.st = &c16Store{r: r, f: sc.Store, data: map[string]string{}, ch: make(chan map[string]*string, 256), getHit: map[string]int{}, getMark: map[string]int{}, getCnt: map[string]int{}}
 	h.st.deleter = h.deleterRole
 	h.st.onPrefix = h.onPrefix
+	if sc.GapDelete != "" {
+		h.st.midHook = h.gapDelete
+	}
 	if len(sc.Adm) > 0 {
 		// the stored session of an offline persistent client whose id extends the
 		// contested id (deleted by some of the admin requests)
